@@ -7,6 +7,7 @@ protocol (`lean/DashLive/Driver/Store.lean`):
   ("as", dir, title)                      PUT    /streams/add
   ("es", spk, dir, title, tref)           POST   /stream/<spk>
   ("ds", spk, variant)                    DELETE /stream/<spk>  |  /stream/<spk>/delete
+  ("sd", spk, ((field, value), …), valid) POST   /stream/<spk>/defaults   (form of the stream defaults page)
   ("up", spk, stem, suffix, kind)         POST   /media/<spk>/blob        (kind: c17_media.KINDS)
   ("ix", mfid)                            GET    /media/index/<mfid>
   ("em", spk, mfid, track)                POST   /stream/<spk>/<mfid>/edit
@@ -22,6 +23,7 @@ periods = tuple of (pk|None, pid, stream_pk, ordering, (track, …)).
 from __future__ import annotations
 
 import io
+import json
 import os
 import shutil
 import sqlite3
@@ -109,6 +111,8 @@ class World:
             return f"es:{op[1]}:{op[2]}:{op[3]}:{op[4] or '-'}"
         if k == "ds":
             return f"ds:{op[1]}"
+        if k == "sd":
+            return f"sd:{op[1]}:{int(bool(op[3]))}"
         if k == "up":
             return f"up:{op[1]}:{op[2]}:{op[3]}:{media.content_token(self.content_of_kind(op[4]))}"
         if k == "ix":
@@ -158,6 +162,8 @@ class World:
             ok = st == 200
         elif k == "ds":
             ok = st == 200 and isinstance(js, dict) and (js.get("success") or "deleted" in js)
+        elif k == "sd":
+            ok = st == 302
         elif k == "up":
             ok = st == 200 and isinstance(js, dict) and "pk" in js and "error" not in js
         elif k == "ix":
@@ -199,6 +205,10 @@ class World:
             return c.post(f"/stream/{op[1]}", json={"title": op[3], "directory": op[2], "marlin_la_url": "",
                                                     "playready_la_url": "", "timing_ref": op[4] or "",
                                                     "csrf_token": self.token("streams")})
+        if k == "sd":
+            d = {n: v for n, v in op[2]}
+            d["csrf_token"] = self.token("streams")
+            return c.post(f"/stream/{op[1]}/defaults", data=d)
         if k == "ds":
             path = f"/stream/{op[1]}" if op[2] == 0 else f"/stream/{op[1]}/delete"
             return c.delete(path, query_string={"ajax": "1", "csrf_token": self.token("streams")})
@@ -253,7 +263,8 @@ class World:
                 return list(db.session.execute(db.select(cls)).scalars())
             out = {
                 "streams": [dict(pk=s.pk, dir=s.directory, title=s.title,
-                                 tref=(s.timing_ref or {}).get("media_name") if s.timing_ref is not None else None)
+                                 tref=(s.timing_ref or {}).get("media_name") if s.timing_ref is not None else None,
+                                 defaults=json.dumps(s.defaults, sort_keys=True, default=str))
                             for s in all_(m.Stream)],
                 "files": [dict(pk=f.pk, name=f.name, stream=f.stream_pk, blob=f.blob_pk, indexed=f.rep is not None,
                                track=f.track_id, ctype=f.content_type, enc=bool(f.encrypted))
@@ -284,6 +295,11 @@ class World:
                 disk.append(dict(dir=rel.parts[0], filename=rel.parts[1], content=self._desc_cache[key]))
         out["disk"] = disk
         return out
+
+    @staticmethod
+    def served_signature(rows: dict) -> str:
+        """everything the answers of the service can depend on besides the modelled state: the saved option defaults"""
+        return "|".join(f"{s['pk']}={s['defaults']}" for s in sorted(rows["streams"], key=lambda x: x["pk"]))
 
     @staticmethod
     def canonical(rows: dict) -> str:
@@ -525,6 +541,19 @@ class World:
                 if st >= 500 or not (st == 200 or 400 <= st < 500):
                     out.append(f"GET {url} -> {st}")
         self.last_status = status
+        # the media requests a player would make next: init and first media segment of the timing-reference file
+        for s in rows["streams"]:
+            f = next((f for f in rows["files"] if f["stream"] == s["pk"] and f["name"] == s["tref"] and f["indexed"]), None)
+            if f is None:
+                continue
+            ext = {"video": "m4v", "audio": "m4a"}.get(f["ctype"], "mp4")
+            for mode in ("live", "vod"):
+                for seg in ("init", "1"):
+                    url = f"/dash/{mode}/{s['dir']}/{f['name']}/{seg}.{ext}"
+                    st = c.get(url).status_code
+                    self.requests += 1
+                    if st >= 500:
+                        out.append(f"GET {url} -> {st}")
         sdir = {s["pk"]: s["dir"] for s in rows["streams"]}
         blobs = {b["pk"]: b for b in rows["blobs"]}
         for f in rows["files"]:
